@@ -3,7 +3,7 @@ import itertools
 from ..core import Family
 from .. import plevel, plevel_global
 
-PROPERTY_FILES = ["C05", "C05_Global"]
+PROPERTY_FILES = ["C05", "C05_Global", "C05_Logic"]
 TRUSTED_BASE = [
     "Coq 8.16.1 kernel (coqc full .vo build)",
     "hand-written model of props/*.rs, views.rs, agenda.rs, search::propagate (coq/Model/{Dom,Views,PropDefs,Propagate}.v, Model/Props/*.v): modelled, not verified; tied by this run's differential",
@@ -94,3 +94,7 @@ FAMILIES = [
     Family("single_prune_global", "prune1", gen_exhaustive_global, nontrivial=nontrivial_prune1, exhaustive=True),
     Family("single_prune_random_global", "prune1", gen_random_global, nontrivial=nontrivial_prune1),
 ]
+
+# group Logic (bool_and/or/not/xor, int_*_reif, all_equal, between, if_then_else): families defined next to its generators
+from . import c05_logic as _logic
+FAMILIES += _logic.FAMILIES
